@@ -63,6 +63,47 @@ func govcSetField(v reflect.Value) int {
 	return -1
 }
 
+type govcE1 struct {
+	F int `json:"X"`
+}
+type govcE2 struct{ X int }
+type govcE3 struct{ X int }
+type govcD1 struct{ govcE2 }
+type govcT1 struct{ govcE1 }
+type govcEmbTagFirst struct {
+	govcE1
+	govcE2
+}
+type govcEmbTagLast struct {
+	govcE2
+	govcE1
+}
+type govcEmbTagMiddle struct {
+	govcE2
+	govcE1
+	govcE3
+}
+type govcEmbDeepFirst struct {
+	govcD1
+	govcE3
+}
+type govcEmbDeepLast struct {
+	govcE3
+	govcD1
+}
+type govcEmbDeepTagged struct {
+	govcE3
+	govcT1
+}
+type govcEmbAmbiguous struct {
+	govcE2
+	govcE3
+}
+type govcEmbOuter struct {
+	govcE2
+	X int
+}
+
 func TestGovcBounded(t *testing.T) {
 	nameAlpha := []byte("abA")
 	keyAlpha := []byte("abAB_")
@@ -154,6 +195,49 @@ func TestGovcBounded(t *testing.T) {
 			}
 		}
 	}
+	// embedded structs: shallowest wins, at equal depth a tagged field wins, ambiguous names are dropped,
+	// for decoding (which field receives the value) and encoding (which members are produced)
+	embedded := []struct {
+		cause string
+		mk    func() interface{}
+		fill  func() interface{}
+	}{
+		{"embedded-same-depth-tagged-does-not-win", func() interface{} { return new(govcEmbTagFirst) }, func() interface{} { return govcEmbTagFirst{govcE1{1}, govcE2{2}} }},
+		{"embedded-same-depth-tagged-does-not-win", func() interface{} { return new(govcEmbTagLast) }, func() interface{} { return govcEmbTagLast{govcE2{2}, govcE1{1}} }},
+		{"embedded-same-depth-tagged-does-not-win", func() interface{} { return new(govcEmbTagMiddle) }, func() interface{} { return govcEmbTagMiddle{govcE2{1}, govcE1{2}, govcE3{3}} }},
+		{"embedded-depth-not-tracked", func() interface{} { return new(govcEmbDeepFirst) }, func() interface{} { return govcEmbDeepFirst{govcD1{govcE2{1}}, govcE3{2}} }},
+		{"embedded-depth-not-tracked", func() interface{} { return new(govcEmbDeepLast) }, func() interface{} { return govcEmbDeepLast{govcE3{2}, govcD1{govcE2{1}}} }},
+		{"embedded-depth-not-tracked", func() interface{} { return new(govcEmbDeepTagged) }, func() interface{} { return govcEmbDeepTagged{govcE3{1}, govcT1{govcE1{2}}} }},
+		{"embedded-ambiguous-not-dropped", func() interface{} { return new(govcEmbAmbiguous) }, func() interface{} { return govcEmbAmbiguous{govcE2{1}, govcE3{2}} }},
+		{"embedded-outer-field-does-not-win", func() interface{} { return new(govcEmbOuter) }, func() interface{} { return govcEmbOuter{govcE2{1}, 2} }},
+	}
+	for _, e := range embedded {
+		for _, key := range []string{"X", "x"} {
+			doc := []byte(`{"` + key + `":7}`)
+			want := e.mk()
+			errW := stdjson.Unmarshal(doc, want)
+			for mode := 0; mode < 2; mode++ {
+				n++
+				got := e.mk()
+				var errG error
+				if mode == 0 {
+					errG = Unmarshal(doc, got)
+				} else {
+					errG = NewDecoder(bytes.NewReader(doc)).Decode(got)
+				}
+				if (errG == nil) != (errW == nil) || (errG == nil && !reflect.DeepEqual(got, want)) {
+					record(e.cause+"-decode", fmt.Sprintf("%T doc=%s got=%+v (%v) want=%+v (%v)", got, doc, reflect.ValueOf(got).Elem().Interface(), errG, reflect.ValueOf(want).Elem().Interface(), errW))
+				}
+			}
+		}
+		n++
+		v := e.fill()
+		wantB, _ := stdjson.Marshal(v)
+		gotB, err := Marshal(v)
+		if err != nil || !bytes.Equal(gotB, wantB) {
+			record(e.cause+"-encode", fmt.Sprintf("%T got=%s (%v) want=%s", v, gotB, err, wantB))
+		}
+	}
 	var ks []string
 	for k := range classes {
 		ks = append(ks, k)
@@ -162,6 +246,6 @@ func TestGovcBounded(t *testing.T) {
 	for _, k := range ks {
 		fmt.Printf("BOUNDED-CLASS %s example: %s\n", k, classes[k])
 	}
-	fmt.Printf("BOUNDED-OK key selection against encoding/json: %d shapes x %d keys (length <= %d over %q) x 3 spellings x {buffer, stream}: %d documents, %d disagreement classes\n",
+	fmt.Printf("BOUNDED-OK key selection against encoding/json (plus 8 embedded-struct shapes, decode and encode): %d shapes x %d keys (length <= %d over %q) x 3 spellings x {buffer, stream}: %d documents, %d disagreement classes\n",
 		len(shapes), len(keys), maxKey, keyAlpha, n, len(ks))
 }
